@@ -480,6 +480,41 @@ pub fn is_canonical_langid(s: &[u8]) -> bool {
     true
 }
 
+/// the model's texts are well-formed subtags of their class, in canonical case, variants strictly increasing
+pub fn model_is_canonical(m: &LangIdModel) -> bool {
+    let l = &m.lang[..txt_len(&m.lang)];
+    if !is_language(l) || !same_text(l, &lower8(l)) || m.lang_und != txt_eq(&m.lang, &UND) {
+        return false;
+    }
+    if let Some(s) = &m.script {
+        let t = &s[..txt_len(s)];
+        if !is_script(t) || !same_text(t, &title8(t)) {
+            return false;
+        }
+    }
+    if let Some(r) = &m.region {
+        let t = &r[..txt_len(r)];
+        if !is_region(t) || !same_text(t, &upper8(t)) {
+            return false;
+        }
+    }
+    let mut i = 0;
+    while i < VMAX {
+        if i < m.nvariants {
+            let v = &m.variants[i];
+            let t = &v[..txt_len(v)];
+            if !is_variant(t) || !same_text(t, &lower8(t)) {
+                return false;
+            }
+            if i > 0 && txt_cmp(&m.variants[i - 1], v) >= 0 {
+                return false;
+            }
+        }
+        i += 1;
+    }
+    true
+}
+
 // ---- value-level formulas ---------------------------------------------------
 
 pub fn opt_txt_eq(a: &Option<Txt>, b: &Option<Txt>) -> bool {
